@@ -218,7 +218,8 @@ impl RawAutomaton {
             transitions: Vec::from_iter([(0..alphabet_size)
                 .map(|b| ((b as u8).into(), 0))
                 .collect::<Vec<_>>()]),
-            markers: FxHashSet::default(),
+            // The transitions above carry the marker 0 ("unmarked").
+            markers: FxHashSet::from_iter([0]),
         }
     }
 
